@@ -3,6 +3,9 @@ Helper lemmas for C17 that do not involve the lexer: row names, bounds entries o
 -/
 import Rooc.LpFormat
 import Rooc.Proofs.Field
+import Mathlib.Data.List.Perm.Subperm
+import Mathlib.Data.List.Nodup
+import Mathlib.Data.List.Range
 namespace Rooc.Lp
 open Rooc Arith
 set_option linter.unusedSectionVars false
@@ -14,26 +17,161 @@ theorem natChars_inj {a b : Nat} (h : natChars a = natChars b) : a = b := by
   rw [h] at ha
   omega
 
+/-! ### generated row names -/
+
+theorem candidate_inj (base : List Char) {j k : Nat} (h : candidate base j = candidate base k) : j = k := by
+  unfold candidate at h
+  by_cases hj : j = 0 <;> by_cases hk : k = 0 <;> simp only [hj, hk, if_true, if_false] at h
+  · omega
+  · have := congrArg List.length h; simp at this
+  · have := congrArg List.length h; simp at this
+  · have := List.append_cancel_left h
+    exact natChars_inj (List.cons.inj this).2
+
+theorem freshName_aux (used : List (List Char)) (base : List Char) (f k : Nat) :
+    freshName used base f k ∉ used ∨ (∀ j, k ≤ j → j < k + f → candidate base j ∈ used) := by
+  induction f generalizing k with
+  | zero => right; intro j h1 h2; omega
+  | succ f ih =>
+    simp only [freshName]
+    by_cases hc : used.contains (candidate base k) = true
+    · simp only [hc, if_true]
+      rcases ih (k + 1) with h | h
+      · exact Or.inl h
+      · right
+        intro j h1 h2
+        by_cases e : j = k
+        · subst e; simpa using hc
+        · exact h j (by omega) (by omega)
+    · simp only [hc, if_false]
+      left; simpa using hc
+
+/-- the name the loop settles on is not taken -/
+theorem freshName_not_mem (used : List (List Char)) (base : List Char) :
+    freshName used base (used.length + 1) 0 ∉ used := by
+  rcases freshName_aux used base (used.length + 1) 0 with h | h
+  · exact h
+  · exfalso
+    have hsub : (List.range (used.length + 1)).map (candidate base) ⊆ used := by
+      intro x hx
+      obtain ⟨j, hj, rfl⟩ := List.mem_map.mp hx
+      exact h j (Nat.zero_le _) (by simpa using List.mem_range.mp hj)
+    have hnd : ((List.range (used.length + 1)).map (candidate base)).Nodup :=
+      (List.nodup_range).map (fun a b e => candidate_inj base e)
+    have := (List.subperm_of_subset hnd hsub).length_le
+    simp at this
+
 section
 variable {α : Type}
 
-theorem rowNames_get (rows : List (LinRow α)) (k i : Nat) (r : LinRow α) (h : rows[i]? = some r) :
-    (rowNames k rows)[i]? = some (rowName (k + i) r.name) := by
-  induction rows generalizing k i with
-  | nil => simp at h
-  | cons x xs ih =>
-    cases i with
-    | zero => simp at h; subst h; simp [rowNames]
-    | succ i =>
-      simp at h
-      have := ih (k+1) i h
-      simp [rowNames, this]
-      congr 1; omega
+/-- a named row keeps its name -/
+theorem rowNamesFrom_named (U : List (List Char)) (i : Nat) (rows : List (LinRow α)) (p : Nat) (rp : LinRow α)
+    (hp : rows[p]? = some rp) (hn : rp.name.toList ≠ []) : (rowNamesFrom U i rows)[p]? = some rp.name.toList := by
+  induction rows generalizing U i p with
+  | nil => simp at hp
+  | cons r rs ih =>
+    cases p with
+    | zero =>
+      simp at hp; subst hp
+      have : r.name.toList.isEmpty = false := by cases h : r.name.toList <;> simp_all
+      simp [rowNamesFrom, this]
+    | succ p =>
+      simp at hp
+      simp only [rowNamesFrom]
+      split <;> simpa using ih _ _ p hp
 
-theorem rowNames_length (rows : List (LinRow α)) (k : Nat) : (rowNames k rows).length = rows.length := by
-  induction rows generalizing k with
-  | nil => rfl
-  | cons x xs ih => simp [rowNames, ih]
+/-- the name generated for an unnamed row is outside the names taken when the loop started -/
+theorem rowNamesFrom_generated (U : List (List Char)) (i : Nat) (rows : List (LinRow α)) (p : Nat) (rp : LinRow α)
+    (hp : rows[p]? = some rp) (hn : rp.name.toList = []) (m : List Char)
+    (hm : (rowNamesFrom U i rows)[p]? = some m) : m ∉ U := by
+  induction rows generalizing U i p with
+  | nil => simp at hp
+  | cons r rs ih =>
+    cases p with
+    | zero =>
+      simp at hp; subst hp
+      simp [rowNamesFrom, hn] at hm
+      subst hm
+      exact freshName_not_mem U _
+    | succ p =>
+      simp at hp
+      simp only [rowNamesFrom] at hm
+      split at hm
+      · have := ih _ _ p hp (by simpa using hm)
+        exact fun h => this (List.mem_cons_of_mem _ h)
+      · exact ih _ _ p hp (by simpa using hm)
+
+theorem rowNamesFrom_unique (U : List (List Char)) (i : Nat) (rows : List (LinRow α))
+    (hU : ∀ r ∈ rows, r.name.toList ≠ [] → r.name.toList ∈ U)
+    (p q : Nat) (rp rq : LinRow α) (hp : rows[p]? = some rp) (hq : rows[q]? = some rq) (hpq : p ≠ q)
+    (hgen : rp.name.toList = []) : (rowNamesFrom U i rows)[p]? ≠ (rowNamesFrom U i rows)[q]? := by
+  induction rows generalizing U i p q with
+  | nil => simp at hp
+  | cons r rs ih =>
+    have hU' : ∀ r' ∈ rs, r'.name.toList ≠ [] → r'.name.toList ∈ U := fun r' h' => hU r' (by simp [h'])
+    -- the name at a position `q' + 1`, seen from the tail
+    have tailName : ∀ (V : List (List Char)) (x : List Char) (q' : Nat),
+        (x :: rowNamesFrom V (i + 1) rs)[q' + 1]? = (rowNamesFrom V (i + 1) rs)[q']? := by intros; simp
+    by_cases hr : r.name.toList = []
+    · -- the head row gets a generated name `n`
+      have hn := freshName_not_mem U ('c' :: natChars (i + 1))
+      simp only [rowNamesFrom, hr, List.isEmpty_nil, if_true]
+      cases p with
+      | zero =>
+        cases q with
+        | zero => exact absurd rfl hpq
+        | succ q =>
+          simp at hq
+          rw [tailName]
+          simp only [List.getElem?_cons_zero]
+          intro e
+          by_cases hqn : rq.name.toList = []
+          · exact rowNamesFrom_generated _ _ rs q rq hq hqn _ e.symm (by simp)
+          · rw [rowNamesFrom_named _ _ rs q rq hq hqn] at e
+            have := hU' rq (List.mem_of_getElem? hq) hqn
+            rw [← Option.some.inj e] at this
+            exact hn this
+      | succ p =>
+        simp at hp
+        cases q with
+        | zero =>
+          rw [tailName]
+          simp only [List.getElem?_cons_zero]
+          intro e
+          exact rowNamesFrom_generated _ _ rs p rp hp hgen _ e (by simp)
+        | succ q =>
+          simp at hq
+          rw [tailName, tailName]
+          exact ih _ _ (fun r' h' hne => List.mem_cons_of_mem _ (hU' r' h' hne)) p q hp hq (by omega)
+    · have hne : r.name.toList.isEmpty = false := by cases h : r.name.toList <;> simp_all
+      simp only [rowNamesFrom, hne, Bool.false_eq_true, if_false]
+      cases p with
+      | zero => simp at hp; subst hp; exact absurd hgen hr
+      | succ p =>
+        simp at hp
+        cases q with
+        | zero =>
+          rw [tailName]
+          simp only [List.getElem?_cons_zero]
+          intro e
+          exact rowNamesFrom_generated _ _ rs p rp hp hgen _ e (hU r (by simp) hr)
+        | succ q =>
+          simp at hq
+          rw [tailName, tailName]
+          exact ih _ _ hU' p q hp hq (by omega)
+
+theorem mem_userNames (rows : List (LinRow α)) : ∀ r ∈ rows, r.name.toList ≠ [] → r.name.toList ∈ userNames rows := by
+  induction rows with
+  | nil => simp
+  | cons r rs ih =>
+    intro r' hr' hne
+    simp only [userNames]
+    rcases List.mem_cons.mp hr' with rfl | h
+    · have : r'.name.toList.isEmpty = false := by cases h : r'.name.toList <;> simp_all
+      simp [this]
+    · split
+      · exact ih r' h hne
+      · exact List.mem_cons_of_mem _ (ih r' h hne)
 end
 
 /-! ### `Ext K` facts -/
